@@ -731,6 +731,7 @@ impl HashColumn {
 		if let Some((table, sub_index, existing_address)) = existing {
 			let (outcome, pending_insert) = self.write_plan_existing(
 				&tables,
+				&reindex,
 				change,
 				log,
 				table,
@@ -780,9 +781,35 @@ impl HashColumn {
 	}
 
 	#[allow(clippy::too_many_arguments)]
+	/// Removes every entry for `key` that points to `address` from the indexes that are still
+	/// waiting to be reindexed. A completed but not yet dropped reindex (or one restarted after
+	/// a reopen) leaves copies of an entry in more than one of them.
+	fn remove_from_older_indexes(
+		key: &Key,
+		address: Address,
+		reindex: &Reindex,
+		log: &mut LogWriter,
+	) -> Result<()> {
+		for entry in &reindex.queue {
+			if let ReindexEntry::Index(index) = entry {
+				let (mut existing_entry, mut sub_index) = index.get(key, 0, log)?;
+				while !existing_entry.is_empty() {
+					if existing_entry.address(index.id.index_bits()) == address {
+						index.write_remove_plan(key, sub_index, log)?;
+					}
+					let (next_entry, next_index) = index.get(key, sub_index + 1, log)?;
+					existing_entry = next_entry;
+					sub_index = next_index;
+				}
+			}
+		}
+		Ok(())
+	}
+
 	fn write_plan_existing(
 		&self,
 		tables: &Tables,
+		reindex: &Reindex,
 		change: &Operation<Key, RcValue>,
 		log: &mut LogWriter,
 		index: &IndexTable,
@@ -804,14 +831,11 @@ impl HashColumn {
 		)? {
 			(Some(outcome), _) => Ok((outcome, None)),
 			(None, Some(value_address)) => {
-				// If it was found in an older index we insert a new entry and drop the old one:
-				// reindexing would otherwise carry the stale address over into the new index.
-				let sub_index = if index.id == tables.index.id {
-					Some(sub_index)
-				} else {
-					index.write_remove_plan(key, sub_index, log)?;
-					None
-				};
+				// The value moved. Drop the entries for the old address from the indexes that are
+				// still to be reindexed: reindexing would otherwise carry the stale address over
+				// into the new index.
+				Self::remove_from_older_indexes(key, existing_address, reindex, log)?;
+				let sub_index = if index.id == tables.index.id { Some(sub_index) } else { None };
 				match tables.index.write_insert_plan(key, value_address, sub_index, log)? {
 					// No room in the current index: the caller has to grow it and insert.
 					PlanOutcome::NeedReindex => Ok((PlanOutcome::NeedReindex, Some(value_address))),
@@ -821,6 +845,7 @@ impl HashColumn {
 			(None, None) => {
 				log::trace!(target: "parity-db", "{}: Removing from index {}", tables.index.id, hex(key));
 				index.write_remove_plan(key, sub_index, log)?;
+				Self::remove_from_older_indexes(key, existing_address, reindex, log)?;
 				Ok((PlanOutcome::Written, None))
 			},
 		}
